@@ -82,6 +82,23 @@ CLAIMED = {
         technique="TLA+ spec SlowCycle + TLC exhaustive model; real SyncGroup.run on a simulated bus; TLC "
                   "batched trace validation",
         design_ref="5/C30"),
+
+    "C06": dict(
+        category="model_checking",
+        text="Xadd.tla runs N instances (2 quick, 3 thorough) of the bytecode the real generator emits for "
+             "`v += a` / `v -= a` over one shared memory, each with its own registers and stack, interleaved "
+             "at instruction granularity by TLC (every schedule), on the eBPF machine of Ebpf.tla; at the end "
+             "the variable must have changed by exactly the sum of all amounts. All statement shapes: 4 memory "
+             "kinds (array map, per-CPU map, local, raw memory through the map base) x formats i I q Q x x "
+             "+= / -= x constant (small, negative, 2^31-1, 2^40+7) / register / expression amounts x initial "
+             "values incl. wrap-around. Exhaustive over schedules for each case.",
+        note="Ebpf.tla is a model of the ISA: cross-checked against the kernel on 1 800 runs of 600 random "
+             "verifier-accepted programs plus targeted packet / hash-helper / tail-call cases, 0 mismatches "
+             "(harness/fidelity.py). An atomic add is one machine step, as on hardware. Per-CPU maps are "
+             "modelled with one copy (all instances on one CPU).",
+        technique="TLA+ spec Xadd over the eBPF machine Ebpf.tla; TLC executes the real emitted bytecode under "
+                  "all interleavings",
+        design_ref="5/C06"),
 }
 NOT_YET = "not yet built in this round (planned in DESIGN.md section 5)"
 NOT_APPLICABLE = {}
